@@ -146,6 +146,35 @@ func runJob(prog *ssa.Program, job Job, base Config) (res HarnessResult) {
 	return
 }
 
+// keepWitness: the path ran to completion; keep a model of its path condition for the first path and for paths
+// 2, 4, 8, ... (up to cfg.Witnesses). The driver runs the harness natively on these inputs: every assertion the
+// solver discharged on the path must hold there too (validation of the encoding against the compiled code).
+func (in *Interp) keepWitness() {
+	if len(in.witnesses) >= in.cfg.Witnesses || in.pathNo&(in.pathNo-1) != 0 {
+		return
+	}
+	nv := 0
+	for _, v := range in.violations {
+		if v.Path == in.pathNo {
+			nv++
+		}
+	}
+	if nv > 0 {
+		return
+	}
+	s := in.sol
+	s.SetQueryTimeout(5000)
+	if s.Check() != Sat {
+		if s.dead {
+			in.restartSolver()
+		}
+		return
+	}
+	m := s.Model(in.ts.vars)
+	in.witnesses = append(in.witnesses, Violation{Kind: "witness", Model: m, Decisions: in.decisionString(),
+		Events: append([]string(nil), in.events...), Path: in.pathNo})
+}
+
 func (in *Interp) RunHarness(fn *ssa.Function, res *HarnessResult) {
 	in.harness = fn
 	in.ack = make(chan struct{})
@@ -188,6 +217,7 @@ func (in *Interp) RunHarness(fn *ssa.Function, res *HarnessResult) {
 			}()
 			in.callFunction(fn, nil, nil, in.ts.True)
 			in.drainThreads()
+			in.keepWitness()
 		}()
 		in.killThreads()
 		in.undoTo(0)
@@ -221,6 +251,7 @@ func (in *Interp) RunHarness(fn *ssa.Function, res *HarnessResult) {
 		}
 	}
 	res.Violations = in.violations
+	res.Witnesses = in.witnesses
 	res.Inconclusive = in.inconclusive
 	if budgetHit {
 		res.Inconclusive = append(res.Inconclusive, Inconclusive{What: fmt.Sprintf("path budget %d exhausted", in.cfg.MaxPaths)})
@@ -295,6 +326,7 @@ func cmdRun(args []string) {
 	params := fs.String("params", "", "k=v,k=v harness parameters")
 	forkAll := fs.Bool("fork-all", false, "fork at every symbolic branch")
 	prune := fs.Bool("prune", false, "solver feasibility check before every symbolic block")
+	witnesses := fs.Int("witness", 2, "completed paths per harness run whose path-condition model is kept for native validation")
 	jobTimeout := fs.Int("job-timeout", 900, "wall-clock limit per harness run in seconds (0 = none)")
 	fs.Parse(args)
 
@@ -337,7 +369,7 @@ func cmdRun(args []string) {
 	}
 	loadS := time.Since(t0).Seconds()
 	fmt.Fprintf(os.Stderr, "loaded %d packages in %.1fs\n", len(prog.AllPackages()), loadS)
-	base := Config{Unwind: *unwind, TimeoutMs: *timeout, Solver: *solver, MaxPaths: *maxPaths, MaxDepth: 400, Trace: *trace, ForkAll: *forkAll, MaxUnion: 64, Prune: *prune, JobTimeoutS: *jobTimeout}
+	base := Config{Unwind: *unwind, TimeoutMs: *timeout, Solver: *solver, MaxPaths: *maxPaths, MaxDepth: 400, Trace: *trace, ForkAll: *forkAll, MaxUnion: 64, Prune: *prune, JobTimeoutS: *jobTimeout, Witnesses: *witnesses}
 	results := make([]HarnessResult, len(jobs))
 	var wg sync.WaitGroup
 	sem := make(chan struct{}, *par)
